@@ -964,7 +964,13 @@ ENUM_PARAMS = {
                         {"mu": 0.0, "sigma": 1.0, "lo": 1.0, "hi": math.inf},
                         {"mu": 0.0, "sigma": 1.0, "lo": -math.inf, "hi": -1.0},
                         {"mu": 0.0, "sigma": 1.0, "lo": -math.inf, "hi": math.inf},
-                        {"mu": 10.0, "sigma": 2.0, "lo": 9, "hi": 12}],
+                        {"mu": 10.0, "sigma": 2.0, "lo": 9, "hi": 12},
+                        # bounds 6 - 8.3 sigma away: the cumulative probability there is within 1e-9..1e-16 of 0 / 1
+                        {"mu": 0.0, "sigma": 1.0, "lo": 0.0, "hi": 7.1},
+                        {"mu": 0.0, "sigma": 1.0, "lo": -7.5, "hi": 0.5},
+                        {"mu": 0.0, "sigma": 1.0, "lo": -8.2, "hi": 8.2},
+                        {"mu": 10.0, "sigma": 2.0, "lo": -3.0, "hi": 10.0},
+                        {"mu": 0.0, "sigma": 1.0, "lo": -6.1, "hi": 6.4}],
     "DistPearson5": [{"alpha": 0.5, "beta": 1.0}, {"alpha": 1.0, "beta": 2.0}, {"alpha": 3.0, "beta": 0.5}],
     "DistPearson6": [{"alpha1": 0.5, "alpha2": 0.5, "beta": 1.0}, {"alpha1": 1.0, "alpha2": 1.0, "beta": 2.0},
                      {"alpha1": 2.0, "alpha2": 3.0, "beta": 0.5}],
